@@ -271,6 +271,8 @@ def run_fourier(case, drv):
     b = max(case['other'], tshape[0])
     c = case['coils']
     x = int_tensor(rng, (b, c, *recon)).to(torch.complex128)
+    if float(x.abs().max()) == 0:
+        x = x + 1  # a zero image says nothing about the constant
     (y,) = op(x)
     cart = case['flavour'].startswith('cart')
     corr = None
